@@ -338,6 +338,17 @@ func runC13(c *Ctx) {
 		_ = v
 	}
 
+	// R7 the address a socket reports is the address it is registered and released under
+	if la := p.Func("vnet", "UDPConn", "LocalAddr"); la != nil {
+		o7 := c.Obl("R7", fname(la), "LocalAddr returns the socket's own local address field on every path: the socket table registers, finds and removes sockets by LocalAddr(), and Close releases that same field", 1)
+		for _, v := range returnedValuesU(la, 0) {
+			o7.Site(v.Pos(), "returns %s", v.String())
+			if !isFieldLoad(strip(v), "vnet.UDPConn", "locAddr") {
+				o7.Fail(v.Pos(), "LocalAddr returns something else than the address the socket was bound with (the socket table would register it under one address and release it under another)")
+			}
+		}
+	}
+
 	// R5 Close releases the address exactly once
 	o = c.Obl("R5", fname(cclose), "closing a socket releases its own local address exactly on the first close (the !closed edge), and the host removes it from the socket table", 2)
 	isRel := func(in ssa.Instruction) bool {
